@@ -122,6 +122,7 @@ pub fn generate(ch: &mut Chunker, prop: &str, thorough: bool, seed: u64, replays
         "C08" => {
             gen_wrap_family(ch, &mut r, "C08", thorough, scale);
             crate::props2::gen_c08_pairs(ch, &mut r, scale);
+            crate::props2::gen_optseqs(ch, &mut r, scale);
         }
         _ => crate::props2::generate2(ch, prop, &mut r, thorough, scale),
     }
